@@ -88,6 +88,11 @@ def c17_board(req):
             note(f"project index(time({i})) != {i}")
         if ts(p.idxToDate(i)) != times[i]:
             note(f"project time({i}) differs from table time")
+    for t in sorted(q for q in probes if s <= q <= e):
+        i = p.dateToIdx(dt(t))
+        lo = ts(p.idxToDate(i))
+        if not (lo <= t < lo + g):
+            note(f"project time(index({t}))={lo} does not frame it (slot length {g})")
     return {"size": n, "bad": bad}
 
 
